@@ -3,6 +3,7 @@ EXTENDS Pool
 \* the stated form: the simulator and/or anything computed from it, optionally with ALL parameters
 Stated == {{"sim"}, {"S"}, {"d"}, {"sim", "S"}, {"sim", "d"}, {"S", "d"}, {"sim", "S", "d"},
            {"sim", "t1", "t2"}, {"S", "t1", "t2"}, {"sim", "S", "d", "t1", "t2"}}
+StatedSmall == {{"sim"}, {"S", "d"}, {"sim", "S", "d", "t1", "t2"}}
 \* outside the stated form: a strict subset of the parameters
 Partial == {{"t1"}, {"sim", "t2"}}
 =============================================================================
